@@ -498,16 +498,177 @@ func vC03InjectivityCase() map[string]any {
 	}
 }
 
+// ---- dns.UnpackDomainName on its own: the decoder whose output is the presentation text the key functions see.
+// The model's unpack_name runs the TRANSLATED label-printing loop of this very function; these cases compare the
+// whole walk (text, offset after the name, error or not) on plain names, names inside a message, compression
+// pointers (backward into an earlier name, forward, into the middle of a label, chains on both sides of
+// maxCompressionPointers, loops), names whose labels summed over pointer jumps exceed the 255-octet budget, and
+// malformed wires.
+func vC03UnpackOne(kind string, msg []byte, off int) map[string]any {
+	s, o, err := dns.UnpackDomainName(msg, off)
+	out := "None"
+	if err == nil {
+		out = fmt.Sprintf("(Some (%s, %d%%N))", vC03Bytes([]byte(s)), o)
+	}
+	errs := ""
+	if err != nil {
+		errs = err.Error()
+	}
+	goFail := ""
+	// Go-side ground truth for generated plain names: the decoder consumes exactly the name
+	if kind == "unpack-plain" && (err != nil || o != len(msg)) {
+		if len(msg)-off <= 255 {
+			goFail = fmt.Sprintf("UnpackDomainName(%v, %d) = %q, %d, %v on a plain well-formed name", msg, off, s, o, err)
+		}
+	}
+	return map[string]any{
+		"k":          kind,
+		"coq":        fmt.Sprintf("CaseUnpack %s %d %s", vC03Bytes(msg), off, out),
+		"go_fail":    goFail,
+		"nontrivial": err == nil && len(s) > 1,
+		"desc":       map[string]any{"msg": fmt.Sprintf("%v", msg), "off": off, "text": s, "next": o, "err": errs},
+	}
+}
+
+func vC03ShortLabels(r *rand.Rand) [][]byte {
+	n := 1 + r.Intn(3)
+	ls := make([][]byte, n)
+	for i := range ls {
+		ls[i] = vC03Label(r, 1+r.Intn(5))
+	}
+	return ls
+}
+
+func vC03UnpackCases(r *rand.Rand, n int, emit func(map[string]any)) {
+	// fixed boundary cases, every run: pointer chains of 125..128 hops ending at the root, a pointer onto
+	// itself, a two-pointer loop, a label loop that exhausts the budget before the pointer limit
+	for _, hops := range []int{1, 125, 126, 127, 128} {
+		var msg []byte
+		for i := 0; i < hops; i++ {
+			msg = append(msg, 0xC0|byte((2*(i+1))>>8), byte(2*(i+1)))
+		}
+		msg = append(msg, 0)
+		emit(vC03UnpackOne("unpack-chain", msg, 0))
+	}
+	emit(vC03UnpackOne("unpack-loop", []byte{0xC0, 0x00}, 0))
+	emit(vC03UnpackOne("unpack-loop", []byte{0xC0, 0x02, 0xC0, 0x00}, 0))
+	for _, l := range []int{1, 2, 63} {
+		msg := append([]byte{byte(l)}, vC03Label(r, l)...)
+		msg = append(msg, 0xC0, 0x00)
+		emit(vC03UnpackOne("unpack-budget", msg, 0))
+	}
+	// total label octets over pointer jumps on both sides of the budget: k labels of one octet walked twice
+	for _, k := range []int{62, 63, 64} {
+		var msg []byte
+		for i := 0; i < k; i++ {
+			msg = append(msg, 1, byte('a'+i%26))
+		}
+		msg = append(msg, 0) // first name: k labels
+		start := len(msg)
+		for i := 0; i < k; i++ {
+			msg = append(msg, 1, byte('A'+i%26))
+		}
+		msg = append(msg, 0xC0, 0) // second name: k labels, then the first name again
+		emit(vC03UnpackOne("unpack-budget", msg, start))
+	}
+	for c := 0; c < n; c++ {
+		switch r.Intn(8) {
+		case 0, 1: // plain name at offset 0
+			w := vC03Wire(vC03Labels(r))
+			emit(vC03UnpackOne("unpack-plain", w, 0))
+		case 2: // plain name behind other octets, read to the end of the message
+			pre := vC03Label(r, 1+r.Intn(12))
+			w := append(append([]byte(nil), pre...), vC03Wire(vC03ShortLabels(r))...)
+			emit(vC03UnpackOne("unpack-plain", w, len(pre)))
+		case 3: // plain name followed by more octets
+			w := append(vC03Wire(vC03ShortLabels(r)), vC03Label(r, 1+r.Intn(6))...)
+			emit(vC03UnpackOne("unpack-trailing", w, 0))
+		case 4, 5: // a message with one name and a second one that ends in a pointer into the first
+			pre := vC03Label(r, r.Intn(13))
+			first := vC03ShortLabels(r)
+			msg := append(append([]byte(nil), pre...), vC03Wire(first)...)
+			// targets: a label boundary of the first name, its root octet, or an arbitrary octet before
+			target := len(pre)
+			switch r.Intn(4) {
+			case 0:
+				k := r.Intn(len(first) + 1)
+				for i := 0; i < k; i++ {
+					target += 1 + len(first[i])
+				}
+			case 1:
+				target = len(msg) - 1
+			case 2:
+				target = r.Intn(len(msg))
+			}
+			start := len(msg)
+			var own [][]byte
+			if r.Intn(4) != 0 {
+				own = vC03ShortLabels(r)
+			}
+			second := vC03Wire(own)
+			second = second[:len(second)-1]
+			msg = append(msg, second...)
+			msg = append(msg, 0xC0|byte(target>>8), byte(target))
+			if r.Intn(3) == 0 {
+				msg = append(msg, vC03Label(r, 1+r.Intn(4))...)
+			}
+			emit(vC03UnpackOne("unpack-pointer", msg, start))
+		case 6: // forward pointer / pointer past the end / offset at or past the end
+			w := vC03Wire(vC03ShortLabels(r))
+			switch r.Intn(3) {
+			case 0:
+				msg := append([]byte{0xC0, 2}, w...)
+				emit(vC03UnpackOne("unpack-forward", msg, 0))
+			case 1:
+				msg := append([]byte{0xC0 | byte(r.Intn(64)), byte(r.Intn(256))}, w...)
+				emit(vC03UnpackOne("unpack-forward", msg, 0))
+			default:
+				emit(vC03UnpackOne("unpack-offset", w, len(w)+r.Intn(2)))
+			}
+		default: // malformed wires of the key cases
+			w, kind := vC03Mangle(r, vC03Wire(vC03Labels(r)))
+			emit(vC03UnpackOne("unpack-"+kind, w, 0))
+		}
+	}
+}
+
+// exhaustive small scope (thorough tier): every message of at most four octets over {0, 1, 2, 'a', '.', 0x40,
+// 0xC0, 0xC1} — the root, two label lengths, a letter, the octet that prints escaped, a reserved label type and
+// two pointer octets — read at offset 0, and the four-octet ones also at offset 1: 4680 + 4096 walks of the
+// decoder's outer loop (the hand-written part of the model) through every short combination of labels, pointers
+// (backward, forward, onto themselves), truncations and reserved types
+func vC03UnpackExhaustive(emit func(map[string]any)) {
+	alphabet := []byte{0, 1, 2, 'a', '.', 0x40, 0xC0, 0xC1}
+	var rec func(msg []byte)
+	rec = func(msg []byte) {
+		if len(msg) > 0 {
+			emit(vC03UnpackOne("unpack-exhaustive", append([]byte(nil), msg...), 0))
+			if len(msg) == 4 {
+				emit(vC03UnpackOne("unpack-exhaustive", append([]byte(nil), msg...), 1))
+			}
+		}
+		if len(msg) == 4 {
+			return
+		}
+		for _, x := range alphabet {
+			rec(append(msg, x))
+		}
+	}
+	rec(nil)
+}
+
 func TestVerifC03Keys(t *testing.T) {
 	tr := vC03Open(t)
 	defer tr.f.Close()
 	if os.Getenv("VERIF_TIER") == "thorough" {
 		tr.emit(vC03InjectivityCase())
+		vC03UnpackExhaustive(tr.emit)
 	}
 	seed := int64(vC03EnvInt("VERIF_SEED", 1))
 	n := vC03EnvInt("VERIF_N", 1200)
 	r := rand.New(rand.NewSource(seed))
 	plans := vC03LenPlans(seed, os.Getenv("VERIF_TIER") == "thorough")
+	vC03UnpackCases(rand.New(rand.NewSource(seed^0x5eed)), n/4, tr.emit)
 
 	for c := 0; c < n+len(plans); c++ {
 		labels := vC03Labels(r)
